@@ -225,6 +225,10 @@ class C09(Check):
         return st.one_of(tpl.pyfmt_rich_case(), tpl.pyfmt_rich_case(), gens.pyfmt_case(allow_invalid=True),
                          tpl.placeholder_rich_case(), tpl.placeholder_rich_case(), gens.placeholder_case())
 
+    def budget_s(self, tier):
+        # safety net only (the case counts are the bound); generous because the box may be shared
+        return 420.0 if tier == "quick" else 1700.0
+
     def examples(self, tier):
         return 650 if tier == "quick" else 60000
 
